@@ -106,6 +106,11 @@ type relay struct {
 	processors *streamProcessors
 
 	peer *relay // relay for traffic from the peer
+
+	// done is closed when the session ends. It releases goroutines that wait for room in `output`.
+	done chan struct{}
+	// stop ends the session; it is called when this relay stops relaying for any reason.
+	stop func()
 }
 
 // newRelay initializes a relay for the given direction. This performs only partial initialization
@@ -129,6 +134,8 @@ func newRelay(
 		outputBuffers:        make(map[uint32]*outputBuffer),
 		output:               make(chan queuedFrame, outputChannelSize),
 		enableDebugLogs:      enableDebugLogs,
+		done:                 make(chan struct{}),
+		stop:                 func() {},
 	}
 	ret.encoder = hpack.NewEncoder(&ret.reencoded)
 
@@ -156,6 +163,9 @@ func (r *relay) relayFrames(closing chan bool) error {
 	// method) is done.
 	readerDone := make(chan struct{})
 	defer func() { readerDone <- struct{}{} }()
+	// Ends the session before waiting for the writer, which may be blocked writing to a peer that
+	// does not read.
+	defer r.stop()
 
 	// Communicates errors occuring on the writer goroutine to the reader goroutine.
 	writerErr := make(chan error, 1)
@@ -172,6 +182,8 @@ func (r *relay) relayFrames(closing chan bool) error {
 					r.destMu.Unlock()
 					if err != nil {
 						writerErr <- err
+						// The reader may be blocked somewhere it cannot see `writerErr`.
+						r.stop()
 					}
 				}
 				// Once an output error has occurred, the remaining frames are drained from the channel
@@ -209,6 +221,9 @@ func (r *relay) relayFrames(closing chan bool) error {
 			}
 		case err := <-writerErr:
 			return fmt.Errorf("sending frame: %w", err)
+		case <-r.done:
+			// The other direction has ended the session.
+			return nil
 		case <-closing:
 			// The ReadFrame goroutine is abandoned at this point. It completes as soon as the blocking
 			// ReadFrame call completes, but could potentially leak for an unspecified duration.
@@ -356,7 +371,7 @@ func (r *relay) updateWindow(f *http2.WindowUpdateFrame) {
 	r.flowMu.Lock()
 	w := r.outputBuffer(f.StreamID)
 	w.windowSize += int(f.Increment)
-	w.emitEligibleFrames(r.output, &r.connectionWindowSize)
+	w.emitEligibleFrames(r.output, r.done, &r.connectionWindowSize)
 	r.flowMu.Unlock()
 }
 
@@ -385,7 +400,7 @@ func (r *relay) data(id uint32, data []byte, streamEnded bool) error {
 
 		r.flowMu.Lock()
 		w.enqueue(f)
-		w.emitEligibleFrames(r.output, &r.connectionWindowSize)
+		w.emitEligibleFrames(r.output, r.done, &r.connectionWindowSize)
 		r.flowMu.Unlock()
 
 		// Some protocols send empty data frames with END_STREAM so the check is done here at the end
@@ -476,14 +491,14 @@ func (r *relay) enqueueFrame(f queuedFrame) {
 	r.flowMu.Lock()
 	w := r.outputBuffer(f.StreamID())
 	w.enqueue(f)
-	w.emitEligibleFrames(r.output, &r.connectionWindowSize)
+	w.emitEligibleFrames(r.output, r.done, &r.connectionWindowSize)
 	r.flowMu.Unlock()
 }
 
 func (r *relay) sendQueuedFramesUnderWindowSize() {
 	r.flowMu.Lock()
 	for _, w := range r.outputBuffers {
-		w.emitEligibleFrames(r.output, &r.connectionWindowSize)
+		w.emitEligibleFrames(r.output, r.done, &r.connectionWindowSize)
 	}
 	r.flowMu.Unlock()
 }
@@ -562,13 +577,18 @@ type outputBuffer struct {
 // given connection window size. It updates the given connectionWindowSize if applicable.
 //
 // This is not thread-safe. The caller should be holding `relay.flowMu`.
-func (w *outputBuffer) emitEligibleFrames(output chan queuedFrame, connectionWindowSize *int) {
+func (w *outputBuffer) emitEligibleFrames(output chan queuedFrame, done chan struct{}, connectionWindowSize *int) {
 	for e := w.queue.Front(); e != nil; {
 		f := e.Value.(queuedFrame)
 		if f.flowControlSize() > *connectionWindowSize || f.flowControlSize() > w.windowSize {
 			break
 		}
-		output <- f
+		select {
+		case output <- f:
+		case <-done:
+			// The session has ended; the writer may be gone.
+			return
+		}
 
 		*connectionWindowSize -= f.flowControlSize()
 		w.windowSize -= f.flowControlSize()
